@@ -14,6 +14,7 @@ PROPS = {
     "C05": dict(level="exploration", shards=(4, 16), timeout=(900, 3000), assumptions=COMMON + ["loopback TCP / WebSocket deliver bytes in order; quiescence is detected by waiting (up to 5 s, 20 s on the confirming re-run) until the expected number of stanzas was routed"]),
     "C06": dict(level="exploration", shards=(2, 16), timeout=(300, 1500), assumptions=COMMON),
     "C09": dict(level="exploration", shards=(4, 16), timeout=(600, 3000), assumptions=COMMON + ["loopback TCP delivers bytes in order; the scripted peer's own count of stanzas it sent is the wire truth"]),
+    "C12": dict(level="fault_enumeration", shards=(8, 16), timeout=(900, 3000), assumptions=COMMON + ["a half-close on loopback TCP delivers all previously written bytes, then EOF", "stable state is detected by polling runtime.Stack for up to 3 s (12 s on the confirming re-run)"]),
     "C14": dict(level="exploration", shards=(4, 16), timeout=(600, 3000), assumptions=COMMON + ["loopback TCP delivers bytes in order; the scripted peer's transcript is what the client wrote"]),
     "C15": dict(level="exploration", shards=(2, 16), timeout=(300, 1500), assumptions=COMMON, fuzz=[("FuzzC15", 60)]),
     "C16": dict(level="exploration", shards=(4, 16), timeout=(600, 3000), assumptions=COMMON + ["loopback TCP delivers bytes in order; the scripted peer's transcript is what the component wrote"]),
@@ -26,6 +27,11 @@ NOT_APPLICABLE = {}
 
 # Texts for MANIFEST.json
 TEXT = {
+    "C12": dict(
+        technique="crash-point enumeration: every byte offset of fixed inbound streams plus rapid-generated streams and offsets; real Client against the scripted peer; goroutine-dump and transcript oracles",
+        level_text="Fault enumeration: the server-to-client stream is cut (prefix, then half-close) at every byte offset of a few fixed streams (all offsets enumerated: between stanzas, inside tags, attributes, text, entities, CDATA, comments) and at generated offsets of generated streams, with and without stream management. Oracle per cut: one error callback and one Disconnected event (with the SM id), every stanza complete before the cut routed exactly once and nothing else, no surviving library goroutine, no keepalive write afterwards.",
+        level_note="Read-side cuts only (crash_points of the inbound stream, as the property states); the enumeration is complete for the fixed streams (~600 offsets quick, ~1500 thorough), sampled for generated ones. Timing-dependent verdicts (loss not reported, goroutine leak) are confirmed by a re-run with 4x margins.",
+    ),
     "C05": dict(
         technique="history-based property test (rapid) of real Client/Component sessions against the scripted peer (TCP and WebSocket); multiset oracle over routed stanza ids",
         level_text="Exploration: generated inbound histories (stanzas of every kind with unique ids and sizes up to 30 KB, <r/>, <a/>, other non-stanza elements) x client/TCP, client/WebSocket, component/TCP x three stream-management modes x write segmentations / WebSocket continuation frames x three endings; a catch-all route records every routed stanza; after quiescence the routed multiset must equal the sent multiset, components must keep arrival order, every <r/> must be answered. A library panic kills the test process and is reported by the driver with the journalled case.",
